@@ -68,6 +68,28 @@ const (
 	leakBound   = 1 * time.Second
 )
 
+// confirmed counts, per failure class, how often a failing verdict was reproduced on fresh sessions in
+// this run. Once a class has reproduced twice, later cases of the class are not re-run and use bounds
+// divided by three (still >= 20x the passing latency of a few ms), so a tree on which every case
+// fails is still judged in minutes.
+var confirmed = map[string]int{}
+
+func anyConfirmed() bool {
+	for _, n := range confirmed {
+		if n >= 2 {
+			return true
+		}
+	}
+	return false
+}
+
+func scale(d time.Duration) time.Duration {
+	if anyConfirmed() {
+		return d / 3
+	}
+	return d
+}
+
 type runner struct {
 	s    *session
 	fail string // harness-level problem (not a property failure)
@@ -357,7 +379,7 @@ func (s *session) finish() verdict {
 	var v verdict
 	bound := 150 * time.Millisecond
 	if s.termed {
-		bound = returnBound - time.Since(s.termAt)
+		bound = scale(returnBound) - time.Since(s.termAt)
 		if bound < 100*time.Millisecond {
 			bound = 100 * time.Millisecond
 		}
@@ -411,8 +433,10 @@ wait:
 	}
 	// the caller of Proxy (Proxy.handleLoop) closes the client connection afterwards
 	s.proxyEnd.Close()
-	closedSeen := s.sReset || waitFor(closeBound, func() bool { _, _, e := s.sstat.get(); return e })
-	waitFor(leakBound, func() bool { return len(s.mine()) == 0 })
+	closedSeen := s.sReset || waitFor(scale(closeBound), func() bool { _, _, e := s.sstat.get(); return e })
+	if closedSeen {
+		waitFor(scale(leakBound), func() bool { return len(s.mine()) == 0 })
+	}
 	left := s.mine()
 	v.obs = s.obs()
 	if !s.termed {
@@ -494,8 +518,9 @@ func (e *ex) finish() core.Result {
 			}
 			v = v2
 		}
-	case v.fail != "" && !v.proven:
+	case v.fail != "" && !v.proven && confirmed[v.sig] < 2:
 		// a verdict that depends on a wall-clock bound counts only if it reproduces (DESIGN App. D)
+		sig := v.sig
 		for i := 0; i < 2; i++ {
 			v2, s2 := replay(e.hist)
 			if s2 != nil {
@@ -506,6 +531,9 @@ func (e *ex) finish() core.Result {
 				v = v2
 				break
 			}
+		}
+		if v.fail != "" {
+			confirmed[sig]++
 		}
 	}
 	if v.fail == "" {
